@@ -87,6 +87,9 @@ def rule_r1(ctx):
     et = repo.cls(ET)
     ctx.require(CHECK in et.methods, f"{ET}.{CHECK} not found")
     funcs = list(et.methods.values()) + [p[k] for p in et.props.values() for k in p]
+    # a private helper that only exists as a part of its callers (every call of it was expanded, sa/inline.py) is examined
+    # there, with the statements that surround the call - not on its own
+    funcs = [f for f in funcs if repo.transparent_callers(f) is None]
     n_open = 0
     for f in funcs:
         al = _path_aliases(f)
